@@ -158,7 +158,7 @@ theorem swap_ok (p : Params) (hy : Hyp p) (e : Emit) (M : State) (hw : WF p e M)
     · intro heq; rw [heq, hvphys] at hpj; exact h1 (Option.some.inj hpj).symm
   have swapTok_var : ∀ t, (swapTok p.vis rt t).var = t.var := by
     intro t; unfold swapTok; split <;> exact moveTok_var _ _ _ _ _
-  refine ⟨M', ⟨?_, ?_, ?_, ?_, ?_, ?_⟩, ?_, ?_⟩
+  refine ⟨M', ⟨?_, ?_, ?_, ?_, ?_, ?_, ?_⟩, ?_, ?_⟩
   · show c'.vars.length = p.n
     rw [← hc'']; simp [Ctx.setVar, Ctx.setW, hcl]
   · show c'.wd.length = 4
@@ -255,6 +255,8 @@ theorem swap_ok (p : Params) (hy : Hyp p) (e : Emit) (M : State) (hw : WF p e M)
       have h1 : j' ≠ i := by intro hh; rw [hh, hvdef] at a2; exact hgg (a2.symm.trans hgv)
       have h2 : j' ≠ altId := by intro hh; rw [hh, hadef] at a2; exact hgg (a2.symm.trans hag)
       rw [hvar'j j' h1 h2]; exact ⟨a1, a2, a3⟩
+  · show c'.hasStackSrc = false
+    rw [← hc'']; exact hw.hss
   · intro j hj hd
     by_cases hji : j = i
     · subst hji; rw [hvar'i, hv'def]
